@@ -84,7 +84,33 @@ type Case struct {
 	Chunk      int    `json:"chunk"`
 	ErrKind    string `json:"err_kind,omitempty"` // identity of the reader's error: "" (own sentinel), unexpected-eof, closed-pipe, deadline
 	WErrKind   string `json:"w_err_kind,omitempty"` // identity of the writer's error: "" (own sentinel), closed-pipe, short-write, deadline, unexpected-eof
+	Params     string `json:"params,omitempty"`     // media type parameters appended to the type: "" or ";inline=1" (CSS declarations, SVG and JS in an attribute)
+	WShape     string `json:"w_shape,omitempty"`    // what else the destination's type offers besides Write: "" (nothing), bytes (Bytes/String/Len like a capped buffer), stringwriter (WriteString)
 }
+
+// a failing destination is often more than a bare io.Writer: a size-capped buffer exposes what it accepted, a
+// connection offers WriteString. The extra methods go through the same Write and fail with it.
+type bytesWriter struct{ *faultWriter }
+
+func (w bytesWriter) Bytes() []byte  { return w.buf.Bytes() }
+func (w bytesWriter) String() string { return w.buf.String() }
+func (w bytesWriter) Len() int       { return w.buf.Len() }
+
+type stringWriter struct{ *faultWriter }
+
+func (w stringWriter) WriteString(s string) (int, error) { return w.Write([]byte(s)) }
+
+func (c Case) dest(w *faultWriter) io.Writer {
+	switch c.WShape {
+	case "bytes":
+		return bytesWriter{w}
+	case "stringwriter":
+		return stringWriter{w}
+	}
+	return w
+}
+
+var wShapes = []string{"", "bytes", "", "stringwriter", "bytes"}
 
 // writerErr: errors real destinations produce (a pipe closed by its reader, a short write, a deadline) must surface
 // like any other
@@ -118,7 +144,7 @@ func (c Case) readerErr() error {
 	return errR
 }
 
-const rule = "for each input (repository test-table snippets and compositions of them, all six media types) the fault-free write count W is measured, then EVERY fault position is run: reader fails after k bytes for k=0..len (with the error arriving with and after the last data), writer fails from its k-th Write for k=1..W (and k=W+1 must succeed), both together, and the same through the Writer and Reader wrappers; positions are exhaustive for inputs <= 512 bytes and stratified (first/last 48, every 5th) above; evaluations = fault positions executed; distinct_nontrivial counts DISTINCT INPUTS (by hash) for which at least one fault strictly inside the stream (0<k<len for readers, 1<k<=W for writers) was executed - a conservative count, the number of such positions is in in_stream_fault_positions_run"
+const rule = "for each input (repository test-table snippets and compositions of them, all six media types) the fault-free write count W is measured, then EVERY fault position is run: reader fails after k bytes for k=0..len (with the error arriving with and after the last data), writer fails from its k-th Write for k=1..W (and k=W+1 must succeed), both together, and the same through the Writer and Reader wrappers; a quarter of the CSS, SVG and JS inputs run with the documented media type parameter inline=1 (CSS then is a declaration list); the failing destination is a bare io.Writer, a type that also has Bytes/String/Len (a capped buffer), or one that also has WriteString, all failing through the same Write; positions are exhaustive for inputs <= 512 bytes and stratified (first/last 48, every 5th) above; evaluations = fault positions executed; distinct_nontrivial counts DISTINCT INPUTS (by hash) for which at least one fault strictly inside the stream (0<k<len for readers, 1<k<=W for writers) was executed - a conservative count, the number of such positions is in in_stream_fault_positions_run"
 
 var registry = mk.Full(mk.Opts{})
 
@@ -133,7 +159,7 @@ func run(c Case) (err error) {
 			err = fmt.Errorf("panic: %v", r)
 		}
 	}()
-	mt := seeds.Mediatype[c.Kind]
+	mt := seeds.Mediatype[c.Kind] + c.Params
 	in := []byte(c.Input)
 	switch c.Mode {
 	case "reader", "writer", "both":
@@ -145,7 +171,7 @@ func run(c Case) (err error) {
 		if c.Mode != "reader" {
 			w.k = c.KW
 		}
-		e := registry.Minify(mt, w, r)
+		e := registry.Minify(mt, c.dest(w), r)
 		switch c.Mode {
 		case "reader":
 			if !isErr(e, c.readerErr()) {
@@ -163,7 +189,7 @@ func run(c Case) (err error) {
 	case "via-writer":
 		sink := &faultWriter{k: c.KW, err: c.writerErr()}
 		errW := c.writerErr()
-		mw := registry.Writer(mt, sink)
+		mw := registry.Writer(mt, c.dest(sink))
 		var seen error
 		chunk := c.Chunk
 		if chunk <= 0 {
@@ -212,19 +238,21 @@ func run(c Case) (err error) {
 }
 
 // faultFree measures W and checks the k=W+1 law (no fault => success, full output).
-func faultFree(kind string, in []byte) (W int, out []byte, err error) {
+func faultFree(kind, params string, in []byte) (W int, out []byte, err error) {
 	w := &faultWriter{}
-	e := registry.Minify(seeds.Mediatype[kind], w, bytes.NewReader(append([]byte{}, in...)))
+	e := registry.Minify(seeds.Mediatype[kind]+params, w, bytes.NewReader(append([]byte{}, in...)))
 	if e != nil {
 		return 0, nil, e
 	}
 	w2 := &faultWriter{k: w.calls + 1}
-	e2 := registry.Minify(seeds.Mediatype[kind], w2, bytes.NewReader(append([]byte{}, in...)))
+	e2 := registry.Minify(seeds.Mediatype[kind]+params, w2, bytes.NewReader(append([]byte{}, in...)))
 	if e2 != nil || !bytes.Equal(w2.buf.Bytes(), w.buf.Bytes()) {
 		return w.calls, w.buf.Bytes(), fmt.Errorf("a writer that would only fail at write #%d (never reached) changed the result: err=%v", w.calls+1, e2)
 	}
 	return w.calls, w.buf.Bytes(), nil
 }
+
+var inlineDecls = []string{"color: red", "margin: 0px 0px 0px 0px", "background: url( 'a b.png' )", "font-weight: bold", "width: calc( 1px + 2% )", "color: #ff0000 !important", "--x: { a : b }", "content: \"a;b\"", "transform: translate( 10px , 0.50em )", "x", ": y", "color: rgb( 255 , 0 , 0 )"}
 
 var errKinds = []string{"", "", "unexpected-eof", "closed-pipe", "deadline"}
 
@@ -238,9 +266,9 @@ func positions(n int, exhaustive bool) []int {
 	return ks
 }
 
-func enumerate(t hx.TB, kind, input string) (int, error) {
+func enumerate(t hx.TB, kind, params, input string) (int, error) {
 	in := []byte(input)
-	W, _, e := faultFree(kind, in)
+	W, _, e := faultFree(kind, params, in)
 	if e != nil {
 		if W > 0 {
 			return 0, e
@@ -252,11 +280,15 @@ func enumerate(t hx.TB, kind, input string) (int, error) {
 	n, inStream := 0, 0
 	defer func() {
 		if inStream > 0 {
-			hx.C.Distinct(hx.Hash(kind, input))
+			hx.C.Distinct(hx.Hash(kind, params, input))
 			hx.C.AddExtra("in_stream_fault_positions_run", int64(inStream))
 		}
 	}()
 	try := func(c Case, nontrivial bool) error {
+		c.Params = params
+		if c.KW > 0 {
+			c.WShape = wShapes[(c.KW+len(c.WErrKind)+len(in))%len(wShapes)]
+		}
 		hx.InFlight("fault", c)
 		err := run(c)
 		hx.C.Eval(1)
@@ -324,7 +356,22 @@ func TestCampaignFaults(t *testing.T) {
 			input = input[:rapid.IntRange(1, len(input)-1).Draw(t, "cut")]
 			hx.C.Class("input-truncated")
 		}
-		n, _ := enumerate(t, kind, input)
+		params := ""
+		if (kind == "css" || kind == "svg" || kind == "js") && rapid.IntRange(0, 3).Draw(t, "inline") == 0 {
+			// the documented inline=1 parameter: CSS declarations of a style attribute, SVG inside HTML, JS of an event
+			// handler attribute, minified directly by the caller
+			params = ";inline=1"
+			if kind == "css" {
+				n := rapid.IntRange(1, 6).Draw(t, "ndecls")
+				var ds []string
+				for i := 0; i < n; i++ {
+					ds = append(ds, rapid.SampledFrom(inlineDecls).Draw(t, "decl"))
+				}
+				input = strings.Join(ds, rapid.SampledFrom([]string{";", "; ", " ;\n "}).Draw(t, "declsep"))
+			}
+			hx.C.Class("params:inline=1:" + kind)
+		}
+		n, _ := enumerate(t, kind, params, input)
 		inputs++
 		hx.C.Class("input:" + kind)
 		hx.C.AddExtra("fault_positions_run", int64(n))
